@@ -262,10 +262,13 @@ static int sched_llp_schedule(parsec_execution_stream_t* es,
 
     lifo_chain_sorted(&es_sched_obj->lifo, &new_context->super, distance,
                       parsec_execution_context_priority_comparator,
-                      /* the comm thread might write into thread 0' s queue, and
-                       * __parsec_reschedule writes into another stream's queue: only
-                       * the owner of a queue other than 0 is its single writer */
-                      (es->th_id != 0) && (parsec_my_execution_stream() == es));
+                      /* No queue has a single writer: the comm thread writes into
+                       * thread 0's queue and __parsec_reschedule writes into the next
+                       * stream's queue while its owner may be in the middle of its own
+                       * detach / merge / re-attach sequence; the owner must therefore
+                       * re-attach with the CAS loop as well, or it overwrites the
+                       * foreign ring. */
+                      0);
 
     return PARSEC_SUCCESS;
 }
